@@ -1,0 +1,20 @@
+//go:build verif
+
+package seat_manager
+
+import "encoding/json"
+
+// VerifSnapshot returns the JSON of a seat manager's exported state (build tag "verif").
+func VerifSnapshot(sm SeatManager) []byte {
+	data, _ := json.Marshal(sm)
+	return data
+}
+
+// VerifRestore rebuilds a seat manager from a snapshot taken by VerifSnapshot.
+func VerifRestore(data []byte) (SeatManager, error) {
+	var s seatManager
+	if err := json.Unmarshal(data, &s); err != nil {
+		return nil, err
+	}
+	return &s, nil
+}
